@@ -14,6 +14,18 @@ CLAIMED["C16"]=("exhaustive enumeration of value domains and of all short decode
 CLAIMED["C09"]=("exhaustive enumeration of all 1-byte (and 2-byte) perturbations, predicate-range splices, truncations and suffixes of ~55 canonical headers against an independently written signature table",
   "All four sniffing entry points are executed on every single-byte perturbation (24 positions x 256 values) of every canonical header, on every one/two-range splice of every ordered header pair and on every length 0..24 with a suffix menu; the pure classifier is additionally run on every 2-byte perturbation (thorough: all 65536 value pairs per position pair). Agreement, non-consumption, prefix-only behaviour, error mapping and signature correctness (narrow must-table for completeness, wide may-table for soundness) are checked on every case.",
   "Trusted: the signature table in engine/cmd/vcheck/c09.go (typed from format specifications, not from the code).", "DESIGN.md §6 C09")
+CLAIMED["C12"]=("exhaustive enumeration of every prefix over the signature alphabet {I,M,*,0x00,x} up to length 7/10, window-boundary prefixes, against a naive first-index search",
+  "Every prefix string over the 5-symbol signature alphabet up to length 7 (quick) / 10 (thorough), times both headers, two first-IFD offsets and five tails (exactly 28 bytes, one byte short, 4 KiB, later signatures, no signature), plus 1600 repeating partial-signature prefixes around the 4 KiB and 8 KiB buffer boundaries, is searched by the real ScanTiffHeader (bufio and plain reader) and compared with a naive reference: offset, byte order, first-IFD offset, ErrNoExif, and the stream position afterwards.",
+  "Trusted: the 10-line naive reference search; the locality argument (a scan step reads 4 symbols, advances 1 or 2) for prefixes beyond the bound.", "DESIGN.md §6 C12")
+CLAIMED["C03"]=("deviation-bounded exhaustive enumeration (<=1 quick, <=2 thorough deviations) of logical Exif records and forward layouts through a TIFF encoder whose own record is the oracle",
+  "A 48-field logical record is encoded in both byte orders by a generator (self-validated on every execution by an independent TIFF walker) and decoded by imagemeta.Decode and exif2.Parse; every observable of the result is compared with the reference model's expectation. All executions with up to 1 (quick) / 2 (thorough) deviations among field values/types/absence (boundary menus) and 7 layout axes are covered, plus every subset of <=2/3 fields on the empty record.",
+  "Trusted: the reference model obs.ExpectExif (Exif 2.32 semantics) and the encoder; stated value domains.", "DESIGN.md §6 C03")
+CLAIMED["C06"]=("deviation-bounded exhaustive enumeration of payload x container x surroundings x entry point; relation against the bare-TIFF decode of the same payload",
+  "The same logical payload is embedded in JPEG, PNG, CR3 (CMT1/2/4) and HEIF files with a menu of surrounding content and decoded by every corresponding entry point; all observables except the image type must equal those of imagemeta.Decode on the bare TIFF, and the image type must be the container's. All executions with <=1 (quick) / <=2 (thorough) deviations over field values, layout axes (including first-IFD offset) and surroundings, both byte orders.",
+  "Trusted: the container builders (JPEG/PNG with CRC/ISOBMFF) in engine/gen; pure relation, so no expected values.", "DESIGN.md §6 C06")
+CLAIMED["C07"]=("deviation-bounded exhaustive enumeration of (record, layout, container, entry point) with both byte-order encodings compared pairwise",
+  "Every logical record and layout within the deviation bound is encoded twice, little- and big-endian, in each of the five containers, and the two decode results (values, zone names and errors) are compared for every entry point.",
+  "Trusted: the encoder writes embedded values left-justified per TIFF 6.0 in either order.", "DESIGN.md §6 C07")
 NOT_YET = {}
 def main():
     props=[json.loads(l) for l in open('/verif/properties.jsonl')]
